@@ -54,6 +54,7 @@ func genSess(seed uint64, prop string) *Scenario {
 	r := rand.New(rand.NewPCG(seed, 0x73657373))
 	cfg := ScenCfg{Default: "DEFAULT", VRFs: []string{"VRF-A"}, FwdRefs: true, Policy: "coarse"}
 	cfg.Window = []int{0, 1, 4}[r.IntN(3)]
+	cfg.Bystander = r.IntN(2) == 0
 	sc := &Scenario{Family: "sess", Seed: seed, Cfg: cfg}
 	g := newGen(seed, 0x73657374, &sc.Cfg)
 	nsess := 2 + r.IntN(3)
@@ -220,6 +221,27 @@ func (sr *sessRun) checkTerm(s *session, x *expectTerm, what string) {
 func runSess(e *env) {
 	e.setup()
 	sr := &sessRun{e: e, ms: map[int]*msess{}, ss: map[int]*session{}, el: elecModel{primary: -1}}
+	if e.sc.Cfg.Bystander {
+		// (flag reused) an earlier, orderly session has left entries behind: every
+		// violation below must leave them, and the election id it learnt, untouched
+		prep := e.openSession([2]uint64{0, 1}, e.sc.Cfg.FIBAck)
+		g := newGen(e.sc.Seed, 0x70726570, &e.sc.Cfg)
+		st := g.batchStep(0, prepSteps(g)[0].ops()[:4])
+		for i := range st.Ops {
+			op := opFromJSON(st.Ops[i])
+			op.Id += 700000
+			st.Ops[i] = opJSON(op)
+		}
+		e.modify(prep, &st)
+		prep.mc.CloseSend()
+		prep.closed = true
+		simrt.AwaitQuiescence("sess-prep-close")
+		e.drainAndProcess(prep)
+		prep.dead = true
+		id := [2]uint64{0, 1}
+		sr.el.max = &id
+		sr.el.primary = -99
+	}
 	for i := range e.sc.Steps {
 		st := &e.sc.Steps[i]
 		e.step = i
